@@ -183,7 +183,13 @@ def getEventName (f : FUid) (spec : Spec) : M String := do
     match spec.members with
     | some (m :: _) =>
       match spec.specType, spec.name with
-      | .flow, some n => return (← flowGetEvent (← tempFlowObj n) m.name []).name
+      | .flow, some n =>
+        let e ← flowGetEvent (← tempFlowObj n) m.name []
+        -- `del flow_event.arguments["source_flow_instance_uid"]; del flow_event.arguments["flow_instance_uid"]`: the request
+        -- events `Stop` / `Pause` / `Resume` carry only `flow_id` and `flow_instance_uid` — the first `del` raises KeyError
+        if (lookupArg "source_flow_instance_uid" e.args).isNone then pyRaise "KeyError" "'source_flow_instance_uid'"
+        if (lookupArg "flow_instance_uid" e.args).isNone then pyRaise "KeyError" "'flow_instance_uid'"
+        return e.name
       | .action, some n => return (← actionGetEvent (← tempAction n []) m.name []).name
       | _, _ => pyRaise "ColangRuntimeError" "Unsupported type"
     | some [] => pyRaise "IndexError" "members"
@@ -227,6 +233,9 @@ def getEvent (f : FUid) (spec : Spec) (isMatch : Bool) : M Match.Ev := do
         -- `flow_event_arguments = element_spec.arguments; .update(members[0]["arguments"])`
         let args ← evalArgs f (m.args.foldl (fun acc kv => OMap.insert kv.1 kv.2 acc) spec.args)
         let e ← flowGetEvent o m.name args
+        -- the two `del`s raise KeyError when the key is missing (`Stop` / `Pause` / `Resume` of a flow given by name)
+        if (lookupArg "source_flow_instance_uid" e.args).isNone then pyRaise "KeyError" "'source_flow_instance_uid'"
+        if (lookupArg "flow_instance_uid" e.args).isNone then pyRaise "KeyError" "'flow_instance_uid'"
         let e := { e with args := OMap.erase "flow_instance_uid" (OMap.erase "source_flow_instance_uid" e.args) }
         return { e with flowUid := if isMatch then none else some "" }
       | .action, some n =>
